@@ -131,6 +131,8 @@ structure ClsE where
   deepOk : Bool            -- `copy.deepcopy` shares nothing with the source
   updDeep : Bool           -- `update_from_other_container` copies property values deeply
   isContainer : Bool       -- a `ContainerBase` class: `mk_copy` and `update_from_other_container` are library operations
+  copyLevel1 : Bool        -- the first-level members of `mk_copy()` / `copy.copy` are distinct objects (not those of the source)
+  updLevel1 : Bool         -- after `update_from_other_container` the first-level members of `self` are distinct objects
 deriving Repr, Inhabited
 
 abbrev Table := List ClsE
@@ -145,12 +147,15 @@ def GetMode.ok : GetMode → Bool
 
 def PropE.ok (p : PropE) : Bool := p.ctor.ok && p.absent.ok && p.get.ok
 
-def ClsE.ok (c : ClsE) : Bool := c.props.all PropE.ok && c.deepOk
+def ClsE.ok (c : ClsE) : Bool := c.props.all PropE.ok && c.deepOk && (!c.isContainer || c.updLevel1)
 
 /-- the decidable side condition on the generated table: no descriptor ever hands out a class-level object, and
     `copy.deepcopy` (used by `init_instance_data`) shares nothing with its source. `mk_copy` / `copy.copy` and
     `update_from_other_container` may be shallow (they are on this tree: a copy is linked to its source, the table
-    records it in `copyDeep` / `updDeep`); what the provider hands out is copied deeply in `mdib/transactions.py`. -/
+    records it in `copyDeep` / `updDeep`); what the provider hands out is copied deeply in `mdib/transactions.py`.
+    `update_from_other_container` of a container must at least make first-level copies (`updLevel1`: that is what the
+    model's `update` does, `copy.copy` per member; a table without it is outside the model). `mk_copy` shares even the
+    first-level members on this tree (`copyLevel1 = false`, the model's shallow `copy`): known finding, see C12.json. -/
 def tableOK (T : Table) : Bool := T.all ClsE.ok
 
 /-! ## state and operations -/
@@ -160,7 +165,7 @@ structure Inst where
   grp : Nat                -- instances with different `grp` were obtained independently of each other: a new group
                            -- for `cls()`, `from_node`, `deepcopy`, a deep `mk_copy`; the source's group for a shallow copy
   tree : Tree
-deriving Repr, Inhabited
+deriving Repr, Inhabited, DecidableEq
 
 structure St where
   defaults : List Tree     -- class-level `_default_py_value` per descriptor (`imm 0` = no default)
